@@ -350,7 +350,7 @@ type Req struct {
 	ReaderFrom    bool  // underlying writer facet: io.ReaderFrom (as net/http's response has)
 	Deadline      int64 // virtual ticks after start; 0 none
 	Think         int64 // open workload: virtual ticks the task sleeps before it issues this request; 0 none
-	CtxErr        int   // what the request context reports once cancelled: 0 Canceled, 1 DeadlineExceeded, 2 a custom error
+	CtxErr        int   // what the request context reports once cancelled: 0 Canceled, 1 DeadlineExceeded, 2 a custom error, 3 Canceled although it carries a deadline far ahead
 	PlannedCancel int   // CancelAt as generated (Local.CancelAt is consumed during the run)
 	Tag           string
 	Body          string // request body (empty: none)
